@@ -1741,7 +1741,39 @@ class Engine:
     def ev_Compare(self, node, st):
         left = self.ev(node.left, st)
         out = []
-        for op, rn in zip(node.ops, node.comparators):
+        for k, (op, rn) in enumerate(zip(node.ops, node.comparators)):
+            if k >= 1 and not isinstance(rn, (ast.Name, ast.Constant)) and not getattr(self, 'in_spec', False):
+                # a < b < f(): the later operands of a chained comparison are evaluated only if the comparisons before them hold
+                g_all = z3.And(*out)
+                gs = z3.simplify(g_all)
+                if z3.is_false(gs):
+                    break
+                if not z3.is_true(gs):
+                    key = self._split_keys(node, len(node.ops))[k]
+                    split = Fork(key, [('comparand%d-skipped' % k, z3.Not(g_all), 'compare', False), ('comparand%d-evaluated' % k, g_all, 'compare', True)])
+                    if id(key) in st.decided:
+                        if not st.take_decided(key)[1]:
+                            st.assume(z3.Not(g_all))
+                            break
+                        st.assume(g_all)
+                        right = self.ev(rn, st)
+                    else:
+                        # evaluated under the guard on a scratch state; if that raises, splits the path or changes the
+                        # environment, the path is split on the guard first
+                        s2 = State(dict(st.env), list(st.pc) + [g_all])
+                        s2.decided, s2.decided_used, s2.trace = st.decided, st.decided_used, st.trace
+                        n0 = len(s2.pc)
+                        try:
+                            right = self.ev(rn, s2)
+                        except (Fork, PyRaise):
+                            raise split
+                        if any(v_ is not st.env.get(k_) and not _same_value(v_, st.env.get(k_)) for k_, v_ in s2.env.items()) or len(s2.env) != len(st.env):
+                            raise split
+                        for fact in s2.pc[n0:]:
+                            st.assume(z3.Implies(g_all, fact))
+                    out.append(self.compare(op, left, right, st))
+                    left = right
+                    continue
             right = self.ev(rn, st)
             out.append(self.compare(op, left, right, st))
             left = right
